@@ -312,7 +312,10 @@ type Frame struct {
 func GC() {}
 
 func Goexit() {
-	js.Global.Get("$curGoroutine").Set("exit", true)
+	g := js.Global.Get("$curGoroutine")
+	g.Set("exit", true)
+	// The frames to unwind are those that are active now.
+	g.Set("exitDepth", g.Get("deferStack").Length())
 	js.Global.Call("$throw", nil)
 }
 
